@@ -6,7 +6,7 @@ PROPS["C01"] = P(
     "indexing are compared with a Vec<bool> model (naive prefix sums) at all positions 0..=len+3 for short vectors, else at all word/sub-block/block boundaries +-1, random positions, len..len+3 and usize::MAX. "
     "A cell is (structure variant | length class/content pattern/tail state); distinct_nontrivial counts the cells in which at least one vector held both a 0 and a 1, or the stratum is a "
     "saturated-block one (all ones / alternating full and empty blocks) of at least 512 bits",
-    dict(builds=["DBG", "UBC"]),
+    dict(builds=["DBG", "UBC"], budget=45),
     dict(builds=["DBG", "UBC", "MIRI"], shards={"MIRI": 6, "DBG": 5, "UBC": 5}),
     hang="violation",
     level_text="Exploration: tens of thousands of (structure variant, vector) pairs executed on the real crate, every answer compared with an independent Vec<bool> prefix-popcount model, in a debug build "
